@@ -324,7 +324,7 @@ def scenarios(tier, seed):
 
 
 HARNESSES = {"eager": h_eager, "agree": h_agree}
-OPTS = {"quick": {"max_paths": 400, "budget_s": 400, "jobs": 10, "branch_timeout_ms": 15000, "obl_timeout_ms": 30000},
+OPTS = {"quick": {"max_paths": 1200, "budget_s": 600, "jobs": 10, "branch_timeout_ms": 15000, "obl_timeout_ms": 30000},
         "thorough": {"max_paths": 2000, "budget_s": 2400, "jobs": 10, "branch_timeout_ms": 30000, "obl_timeout_ms": 120000}}
 
 META = {
